@@ -1,0 +1,110 @@
+//go:build verif
+
+package pool
+
+import (
+	"github.com/protolambda/zrnt/eth2/beacon/common"
+)
+
+// Read-only views of pool internals for the /verif correspondence harness (property C20).
+// Only compiled with the build tag `verif`; nothing here writes to a pool.
+
+// VerifIndividual is one entry of AttestationPool.individual.
+type VerifIndividual struct {
+	Key Assignment
+	Ref AttRef
+}
+
+// VerifIndividuals lists the unaggregated attestations held by the pool (map order).
+func (ap *AttestationPool) VerifIndividuals() []VerifIndividual {
+	out := make([]VerifIndividual, 0, len(ap.individual))
+	for k, v := range ap.individual {
+		out = append(out, VerifIndividual{Key: k, Ref: *v})
+	}
+	return out
+}
+
+// VerifVote is one entry of AttestationPool.aggPerValidator.
+type VerifVote struct {
+	Key  Assignment
+	Root common.Root
+}
+
+// VerifAggPerValidator lists aggPerValidator; isNil tells whether the Go map itself is nil.
+func (ap *AttestationPool) VerifAggPerValidator() (out []VerifVote, isNil bool) {
+	for k, v := range ap.aggPerValidator {
+		out = append(out, VerifVote{Key: k, Root: v})
+	}
+	return out, ap.aggPerValidator == nil
+}
+
+// VerifAggregate is a deep copy of one entry of AttestationPool.aggregate.
+type VerifAggregate struct {
+	Root         common.Root
+	Aggregates   []Aggregate
+	Participants []byte
+	Extra        []Aggregate
+}
+
+func verifCopyAggs(in []Aggregate) []Aggregate {
+	out := make([]Aggregate, 0, len(in))
+	for _, a := range in {
+		out = append(out, Aggregate{Participants: append([]byte(nil), a.Participants...), Sig: a.Sig})
+	}
+	return out
+}
+
+func (ap *AttestationPool) VerifAggregates() []VerifAggregate {
+	out := make([]VerifAggregate, 0, len(ap.aggregate))
+	for k, v := range ap.aggregate {
+		if v == nil {
+			out = append(out, VerifAggregate{Root: k})
+			continue
+		}
+		out = append(out, VerifAggregate{Root: k, Aggregates: verifCopyAggs(v.Aggregates),
+			Participants: append([]byte(nil), v.Participants...), Extra: verifCopyAggs(v.Extra)})
+	}
+	return out
+}
+
+// VerifData is a copy of one entry of AttestationPool.datas.
+type VerifData struct {
+	Root common.Root
+	Data IndexedAttData
+}
+
+func (ap *AttestationPool) VerifDatas() []VerifData {
+	out := make([]VerifData, 0, len(ap.datas))
+	for k, v := range ap.datas {
+		c := IndexedAttData{Data: v.Data, Committee: append(common.CommitteeIndices(nil), v.Committee...)}
+		out = append(out, VerifData{Root: k, Data: c})
+	}
+	return out
+}
+
+// VerifCurrentSlot returns the slot the sync-committee pool is centred on.
+func (sp *SyncCommitteePool) VerifCurrentSlot() common.Slot { return sp.currentSlot }
+
+// VerifMsgs returns the message buffer of the previous (0), current (1) or next (2) slot, as held (may be nil).
+func (sp *SyncCommitteePool) VerifMsgs(pos int) SyncCommitteeMessages {
+	switch pos {
+	case 0:
+		return sp.prevMsgs
+	case 1:
+		return sp.currentMsgs
+	default:
+		return sp.nextMsgs
+	}
+}
+
+// VerifContribs returns the contribution buffer of the previous (0), current (1) or next (2) slot, as held (may be nil).
+func (sp *SyncCommitteePool) VerifContribs(pos int) SyncCommitteeContributions {
+	switch pos {
+	case 0:
+		return sp.prevContribs
+	case 1:
+		return sp.currentContribs
+	default:
+		return sp.nextContribs
+	}
+}
